@@ -299,8 +299,23 @@ func genMetadata(rt *rapid.T) (string, []byte) {
 		return "[" + strings.Join(parts, sep) + "]"
 	}
 	kind := drawWeighted(rt, "mdkind", []weighted{{"valid", 12}, {"empty", 2}, {"plain-json", 2}, {"unknown-top", 2}, {"unknown-nested", 2}, {"dup-key", 2}, {"case-key", 2}, {"case-key-both", 1},
-		{"nested-case", 2}, {"escaped-key", 2}, {"escaped-value", 1}, {"wrong-type", 3}, {"null", 1}, {"array-top", 1}, {"string-top", 1}, {"trailing", 2}, {"non-json", 2}, {"big", 1}, {"legacy-bytes", 1}})
+		{"nested-case", 2}, {"escaped-key", 2}, {"escaped-value", 1}, {"wrong-type", 3}, {"null", 1}, {"array-top", 1}, {"string-top", 1}, {"trailing", 2}, {"non-json", 2}, {"big", 1}, {"legacy-bytes", 1}, {"padded-id", 2}})
 	switch kind {
+	case "padded-id":
+		// identifiers with white space around them name other (non-existent) channels, not the trimmed ones
+		ch := c19Channels[rapid.IntRange(0, len(c19Channels)-1).Draw(rt, "padch")]
+		pad := rapid.SampledFrom([]string{" ", "\t", "  "}).Draw(rt, "pad")
+		switch rapid.IntRange(0, 3).Draw(rt, "padwhere") {
+		case 0:
+			ch.port += pad
+		case 1:
+			ch.port = pad + ch.port
+		case 2:
+			ch.channel += pad
+		default:
+			ch.channel = pad + ch.channel
+		}
+		return kind, []byte(`{"perm_channels":[` + el(ch) + `]}`)
 	case "valid":
 		return kind, []byte(`{"perm_channels":` + list() + `}`)
 	case "empty":
@@ -353,6 +368,19 @@ type c19Bridge struct {
 	proposer   string
 	challenger string
 	metadata   []byte
+	// heldAtListing: the channels the bridge's challenger administered right after the bridge's metadata was last
+	// accepted - whatever list the chain read out of metadata the documentation does not settle is among them
+	heldAtListing map[chanID]bool
+}
+
+func heldBy(st map[chanID]chanState, who string) map[chanID]bool {
+	m := map[chanID]bool{}
+	for c, s := range st {
+		if s.admin == who {
+			m[c] = true
+		}
+	}
+	return m
 }
 
 type c19World struct {
@@ -591,7 +619,7 @@ func TestC19Rapid(t *testing.T) {
 					fail("%v", err)
 				}
 				if r.OK() {
-					w.bridges = append(w.bridges, &c19Bridge{id: r.Resp.(*ophosttypes.MsgCreateBridgeResponse).BridgeId, proposer: prop.Str, challenger: chal.Str, metadata: md})
+					w.bridges = append(w.bridges, &c19Bridge{id: r.Resp.(*ophosttypes.MsgCreateBridgeResponse).BridgeId, proposer: prop.Str, challenger: chal.Str, metadata: md, heldAtListing: heldBy(post, chal.Str)})
 				}
 				c.Class("metadata/" + kind)
 				c.Class("class/" + class)
@@ -622,6 +650,7 @@ func TestC19Rapid(t *testing.T) {
 				}
 				if r.OK() {
 					b.metadata = md
+					b.heldAtListing = heldBy(post, b.challenger)
 				}
 				c.Class("metadata/" + kind)
 				c.Class("class/" + class)
@@ -667,6 +696,11 @@ func TestC19Rapid(t *testing.T) {
 					}
 					if class == "undocumented" {
 						fail("update-challenger of bridge %d whose metadata is not the documented structure touched %s/%s", b.id, ch.port, ch.channel)
+					}
+					if class == "grey" && !b.heldAtListing[ch] {
+						// whichever list the chain read out of this metadata when it accepted it, the challenger held those
+						// channels afterwards; a channel it did not hold then cannot be one of the bridge's listed channels
+						fail("update-challenger of bridge %d moved %s/%s, which the bridge's challenger did not administer when the metadata was accepted (the list read then and the list read now differ)", b.id, ch.port, ch.channel)
 					}
 				}
 				if r.OK() && class == "documented" {
